@@ -214,7 +214,8 @@ structure Spec where
   conns : List ((String × Nat) × Log) := []           -- live connections
   hs : List (String × SB) := []
   deadTouched : Bool := false                          -- a push/query addressed a dead connection since the last snap
-  risky : List (String × Nat) := []                    -- connections a D16-situation push was sent to
+  alt : List ((String × Nat) × Log) := []             -- the same logs WITHOUT the pushes of sessions that had queried while
+                                                       -- dirty: what the maps would be under defect D16 (only used to name it)
   off : Bool := false                                  -- a violation was reported: nothing more is judged until the next reset
 
 def fronts : List String := ["gate-1", "gate-2"]
@@ -224,8 +225,12 @@ def typeOfSvc (n : String) : Option String :=
 
 def Spec.conn (s : Spec) (c : String × Nat) : Option Log := (s.conns.find? (fun e => e.1 == c)).map (·.2)
 
-def Spec.setConn (s : Spec) (c : String × Nat) (l : Log) : Spec :=
-  { s with conns := s.conns.map fun e => if e.1 == c then (c, l) else e }
+def Spec.altOf (s : Spec) (c : String × Nat) : Option Log := (s.alt.find? (fun e => e.1 == c)).map (·.2)
+
+/-- prepend writes (newest first) to the log of `c`; `both = false`: a push that defect D16 would have dropped -/
+def Spec.write (s : Spec) (c : String × Nat) (ws : Log) (both : Bool := true) : Spec :=
+  { s with conns := s.conns.map fun e => if e.1 == c then (c, ws ++ e.2) else e
+           alt := if both then s.alt.map fun e => if e.1 == c then (c, ws ++ e.2) else e else s.alt }
 
 def initLog (f : String) (n : Nat) : Log :=
   [(hexKeyNetId, ⟨s!"n{n}", s!"nf{n}", true⟩), (hexKeyServerId, svStr (hexOfString f))]
@@ -273,8 +278,8 @@ def specSOp (st : ScSt) (t : String) : ScSt × Exp :=
     let isNode := fronts.contains c.1
     match f with
     | ["get", k] => (st, ⟨(match log.find k with | some v => v.raw | none => "-"), "C10/get-wrong"⟩)
-    | ["set", k, v] => ({ st with sp := st.sp.setConn c ((k, svOfVal v) :: log) }, ⟨"ok", "C10/set-failed"⟩)
-    | ["bind", u] => ({ st with sp := st.sp.setConn c ((hexKeyUId, svStr u) :: log) }, ⟨"ok", "C10/set-failed"⟩)
+    | ["set", k, v] => ({ st with sp := st.sp.write c [(k, svOfVal v)] }, ⟨"ok", "C10/set-failed"⟩)
+    | ["bind", u] => ({ st with sp := st.sp.write c [(hexKeyUId, svStr u)] }, ⟨"ok", "C10/set-failed"⟩)
     | ["id"] =>
       (st, ⟨(match log.find hexKeyUId with
         | some v => if isStrTok v.raw then v.raw else "panic"
@@ -304,12 +309,11 @@ def specSOp (st : ScSt) (t : String) : ScSt × Exp :=
         if !fronts.contains b.front then (upd b' st.sp, ⟨"err", "C10/push-result-wrong"⟩)
         else match st.sp.conn tgt with
           | none => (upd b' { st.sp with deadTouched := true }, ⟨"ok", "C10/push-result-wrong"⟩)
-          | some log =>
+          | some _ =>
             -- every value it set is merged, key by key (all representable, else nothing is sent)
             let sp := if b.pend.latest.all (·.2.rep) then
-                st.sp.setConn tgt ((b.pend.latest.map fun e => (e.1, (⟨e.2.nrm, e.2.nrm, true⟩ : SV))) ++ log)
+                st.sp.write tgt (b.pend.latest.map fun e => (e.1, (⟨e.2.nrm, e.2.nrm, true⟩ : SV))) (!b.risk)
               else st.sp
-            let sp := if b.risk then { sp with risky := tgt :: sp.risky } else sp
             (upd b' sp, ⟨"ok", "C10/push-result-wrong"⟩)
     | ["query"] =>
       if b.ns == "" then (st, ⟨"nons", "C10/harness"⟩)
@@ -333,9 +337,9 @@ def specSOp (st : ScSt) (t : String) : ScSt × Exp :=
       let c := (fr, n.toNat?.getD 0)
       match st.sp.conn c with
       | none => (st, ⟨"bad-op", "C10/harness"⟩)
-      | some log =>
+      | some _ =>
         let sp := if b.pend.latest.all (·.2.rep) then
-            st.sp.setConn c ((b.pend.latest.map fun e => (e.1, (⟨e.2.nrm, e.2.nrm, true⟩ : SV))) ++ log)
+            st.sp.write c (b.pend.latest.map fun e => (e.1, (⟨e.2.nrm, e.2.nrm, true⟩ : SV)))
           else st.sp
         (upd b sp, ⟨"ok", "C10/merge-wrong"⟩)
     | ["from", fr, n] =>
@@ -375,9 +379,14 @@ def cmpResults (exps : List Exp) (got : String) : Option (String × String) :=
 def viol (sp : Spec) (sig : String) (op obs why : String) : Spec × String :=
   ({ sp with off := true }, s!"VIOLATION {sig} {op} => {obs} ({why})")
 
-/-- a mismatch on a connection a D16-situation push went to is reported as that defect -/
-def sigFor (sp : Spec) (c : String × Nat) (sig : String) : String :=
-  if sp.risky.contains c then "C10/set-query-push-lost" else sig
+/-- instance and uid a forwarded message of a connection with this log gets -/
+def routeOf (log : Log) : String × String :=
+  (match log.find hexChatId with
+    | some v => if isStrTok v.raw then strOfHex (dropS v.raw 1) else ""
+    | none => "",
+   match log.find hexKeyUId with
+    | some v => v.raw
+    | none => "s")
 
 def obsField (ows : List String) (k : String) : String := (kv ows k).getD ""
 
@@ -401,14 +410,15 @@ def specLine (sp : Spec) (line : String) : Spec × String :=
           if !fronts.contains f then (sp, "ok")
           else
             let n := ((sp.next.find? (·.1 == f)).map (·.2)).getD 0 + 1
-            let sp' := { sp with next := (f, n) :: sp.next.filter (·.1 != f), conns := sp.conns ++ [((f, n), initLog f n)] }
+            let sp' := { sp with next := (f, n) :: sp.next.filter (·.1 != f), conns := sp.conns ++ [((f, n), initLog f n)],
+                                 alt := sp.alt ++ [((f, n), initLog f n)] }
             if obs == s!"n{n}" then (sp', "ok") else viol sp' "C10/connection-id" op obs s!"wanted n{n}"
         | none => (sp, "bad-op")
       | "close" =>
         match kv ws "f", kvNat ws "n" with
         | some f, some n =>
           let live := (sp.conn (f, n)).isSome && fronts.contains f
-          let sp' := if live then { sp with conns := sp.conns.filter (·.1 != (f, n)) } else sp
+          let sp' := if live then { sp with conns := sp.conns.filter (·.1 != (f, n)), alt := sp.alt.filter (·.1 != (f, n)) } else sp
           let want := if live then "ok" else "closed"
           if obs == want then (sp', "ok") else viol sp' "C10/close" op obs ("wanted " ++ want)
         | _, _ => (sp, "bad-op")
@@ -425,23 +435,23 @@ def specLine (sp : Spec) (line : String) : Spec × String :=
               -- front-local: the handler works on the connection's own map
               let (st, exps) := specScript sp (.front c) none script
               let want := s!"at={f} local"
-              if !obs.startsWith want then viol st.sp (sigFor sp c "C10/routing-ignored-pushed-data") op obs ("wanted " ++ want)
+              if !obs.startsWith want then viol st.sp "C10/routing-ignored-pushed-data" op obs ("wanted " ++ want)
               else match cmpResults exps (obsField ows "r") with
-                | some (sig, why) => viol st.sp (sigFor sp c sig) op obs why
+                | some (sig, why) => viol st.sp sig op obs why
                 | none =>
                   let wr := if ntf then "none" else "ok"
                   if obsField ows "resp" == wr then (st.sp, "ok") else viol st.sp "C10/response" op obs ("wanted resp=" ++ wr)
             else
               -- forwarded: the rule reads the CURRENT map of the connection, the envelope its current uid
-              let inst := match log.find hexChatId with
-                | some v => if isStrTok v.raw then strOfHex (dropS v.raw 1) else ""
-                | none => ""
-              let uidTok := match log.find hexKeyUId with
-                | some v => v.raw
-                | none => "s"
+              let (inst, uidTok) := routeOf log
+              -- defect D16 is named when the observation is what the maps WITHOUT the dropped pushes give
+              let (instA, uidA) := routeOf ((sp.altOf c).getD log)
+              let d16 (gotAt gotUid : String) (sig : String) : String :=
+                if (instA != inst || uidA != uidTok) && (gotAt == instA || (typeOfSvc instA).isNone && gotAt == "none") && (gotUid == uidA || gotAt == "none")
+                then "C10/set-query-push-lost" else sig
               let noneWith (r : String) : Spec × String :=
                 if obs == "at=none resp=" ++ r then (sp, "ok")
-                else viol sp (sigFor sp c "C10/routing-ignored-pushed-data") op obs s!"wanted at=none resp={r}"
+                else viol sp (d16 (obsField ows "at") (obsField ows "uid") "C10/routing-ignored-pushed-data") op obs s!"wanted at=none resp={r}"
               match typeOfSvc inst with
               | none => noneWith (if ntf then "none" else "err")
               | some ty =>
@@ -452,11 +462,11 @@ def specLine (sp : Spec) (line : String) : Spec × String :=
                   let (st, exps) := specScript sp (.back b) none script
                   let sp' := storeKeptS st
                   if obsField ows "at" != inst then
-                    viol sp' (sigFor sp c "C10/routing-ignored-pushed-data") op obs ("the rule names " ++ inst)
+                    viol sp' (d16 (obsField ows "at") (obsField ows "uid") "C10/routing-ignored-pushed-data") op obs ("the rule names " ++ inst)
                   else if obsField ows "uid" != uidTok || obsField ows "front" != f || obsField ows "conn" != s!"n{n}" then
-                    viol sp' (sigFor sp c "C10/envelope-stale") op obs s!"wanted uid={uidTok} front={f} conn=n{n}"
+                    viol sp' (d16 (obsField ows "at") (obsField ows "uid") "C10/envelope-stale") op obs s!"wanted uid={uidTok} front={f} conn=n{n}"
                   else match cmpResults exps (obsField ows "r") with
-                    | some (sig, why) => viol sp' (sigFor sp c sig) op obs why
+                    | some (sig, why) => viol sp' sig op obs why
                     | none =>
                       let wr := if ntf then "none" else "ok"
                       if obsField ows "resp" == wr then (sp', "ok") else viol sp' "C10/response" op obs ("wanted resp=" ++ wr)
@@ -484,11 +494,10 @@ def specLine (sp : Spec) (line : String) : Spec × String :=
           match sess? with
           | none => if obs == "nohandle" then (sp, "ok") else viol sp "C10/harness" op obs "wanted nohandle"
           | some (sess, kept) =>
-            let tgt := match sess with | .front c => c | .back b => (b.front, b.ord)
             let (st, exps) := specScript sp sess kept script
             let sp' := storeKeptS st
             match cmpResults exps (obsField ows "r") with
-            | some (sig, why) => viol sp' (sigFor sp tgt sig) op obs why
+            | some (sig, why) => viol sp' sig op obs why
             | none => (sp', "ok")
       | "snap" =>
         let want := "snap " ++ " ".intercalate (fronts.flatMap fun f =>
@@ -501,15 +510,17 @@ def specLine (sp : Spec) (line : String) : Spec × String :=
           let wantParts := (words want).drop 1
           let bad := (wantParts.filter fun p => !gotParts.contains p).head?.getD ((gotParts.filter fun p => !wantParts.contains p).head?.getD "?")
           let cname := (bad.splitOn "=").head!
-          let isRisky := sp.risky.any fun c => s!"{c.1}#{c.2}" == cname
-          let sig := if isRisky then "C10/set-query-push-lost"
+          let gotPart := (gotParts.find? fun p => p.startsWith (cname ++ "=")).getD ""
+          let altPart := (sp.alt.find? fun e => s!"{e.1.1}#{e.1.2}" == cname).map fun e => s!"{cname}={showSnapMap e.2}"
+          let sig := if altPart == some gotPart then "C10/set-query-push-lost"
             else if sp.deadTouched then "C10/dead-session-affected-others" else "C10/merge-wrong"
           viol sp' sig op obs ("wanted " ++ want)
       | "p.mkf" =>
         match kv ws "f", kvNat ws "n" with
         | some f, some n =>
           if fronts.contains f then (sp, "ok")
-          else ({ sp with conns := sp.conns.filter (·.1 != (f, n)) ++ [((f, n), initLog f n)] }, "ok")
+          else ({ sp with conns := sp.conns.filter (·.1 != (f, n)) ++ [((f, n), initLog f n)],
+                          alt := sp.alt.filter (·.1 != (f, n)) ++ [((f, n), initLog f n)] }, "ok")
         | _, _ => (sp, "bad-op")
       | "p.mkb" =>
         match kv ws "h", kv ws "f", kvNat ws "n", kv ws "uid" with
